@@ -15,7 +15,7 @@ INFO = {
                "break for one-line, a line break and depth-proportional indentation for pretty), members are "
                "key-via-print_string `:` value, separators are one comma after every element but the last, brackets "
                "are balanced on every non-error path; (d) a row is the printed text of Context::build() followed by "
-               "the row separator, in one write. Every Clone impl of the data types (options, values) is field-wise; Context::build is the object of the selections whenever there are selections.",
+               "the row separator, in one write. Every Clone impl of the data types (options, values) is field-wise; Context::build is the object of the selections whenever there are selections. The JSON number constructor handed on as a function value (`.map(JsonValue::from)`) is judged on the payload it is applied to.",
     "not_decided": "Shortest-round-trip digits of doubles (trusted: Display for f64), byte-for-byte equality of a "
                    "second run as a run-time statement, and the separator guard beyond the sizes 1..3 it is "
                    "evaluated for.",
